@@ -9,6 +9,8 @@ pub mod util;
 pub mod ef_grid;
 #[cfg(any(feature = "c03", feature = "c04", feature = "c11", feature = "c12"))]
 pub mod efcommon;
+#[cfg(any(feature = "c03", feature = "c04"))]
+pub mod efstate;
 #[cfg(feature = "c01")]
 pub mod c01;
 #[cfg(feature = "c02")]
